@@ -153,6 +153,14 @@ Fixpoint update_match (now : N) (x : arec) (b : list arec) : option (list arec) 
          end
   end.
 
+(* a matching record that was on its way out (TTL <= 1, a goodbye) and is announced again with
+   TTL > 1 counts as new *)
+Fixpoint revived (x : arec) (b : list arec) : bool :=
+  match b with
+  | [] => false
+  | r :: t => if arec_matches r x then hp_revived (l_ttl (a_life r)) (l_ttl (a_life x)) else revived x t
+  end.
+
 (* DnsCache::add_or_update for an address record; result: new cache, "a new record was added" *)
 Definition add_or_update (now : N) (for_us : bool) (x : arec) (c : cache) : cache * bool :=
   let k := lower (a_name x) in
@@ -162,7 +170,7 @@ Definition add_or_update (now : N) (for_us : bool) (x : arec) (c : cache) : cach
   | _, _ =>
     let b1 := if a_flush x then map (flush_one now x) b else b in
     match update_match now x b1 with
-    | Some b2 => (aset k b2 c, false)
+    | Some b2 => (aset k b2 c, revived x b1)
     | None => (aset k (x :: b1) c, true)
     end
   end.
@@ -240,11 +248,16 @@ Definition exec_call (now : N) (s : st) (c : call) : st * list (N * ev) * list q
 (* ---- due retransmissions -------------------------------------------------------------------- *)
 Definition rr_due (now : N) (rr : rerun) : bool := hp_rerun_due now (rr_time rr).
 
+(* a retransmission whose search was stopped or timed out meanwhile does not run *)
 Definition exec_rerun (now : N) (acc : st * list (N * ev) * list query) (rr : rerun)
   : st * list (N * ev) * list query :=
   let '(s, evs, qs) := acc in
-  let '(s', q) := send_and_rearm now (rr_host rr) (rr_delay rr) (rr_chan rr) s in
-  (s', evs ++ [(rr_chan rr, EStarted (rr_host rr))], qs ++ q).
+  match find_res (lower (rr_host rr)) (s_res s) with
+  | None => acc
+  | Some _ =>
+    let '(s', q) := send_and_rearm now (rr_host rr) (rr_delay rr) (rr_chan rr) s in
+    (s', evs ++ [(rr_chan rr, EStarted (rr_host rr))], qs ++ q)
+  end.
 
 Definition do_reruns (now : N) (s : st) : st * list (N * ev) * list query :=
   let due := filter (rr_due now) (s_retr s) in
